@@ -54,6 +54,22 @@ func VerifReadAPI() {
 			rt.Assert(st != 200 || rt.Eq(frec.Body, wd.Prev[hit]), "C16/read-fault-never-serves-other-bytes")
 			rt.Cover(true, "http/read-fault")
 		}
+		// the same for the list: a failing read is an error or the complete list, never a part of it
+		rt.ResetEvents()
+		rt.DBFaults = true
+		flrec := &rt.RecWriter{}
+		s.getLogs(flrec, &nethttp.Request{})
+		rt.DBFaults = false
+		if rt.Count("dbfault") > 0 && verifStatus(flrec) == 200 {
+			var all []any
+			for i, x := range wd.IDs {
+				if wd.Stored[i] {
+					all = append(all, []byte(x))
+				}
+			}
+			rt.Assert(rt.Eq(flrec.Body, rt.JSONList(all...)), "C16/read-fault-never-serves-a-partial-list")
+			rt.Cover(true, "http/list-read-fault")
+		}
 	}
 	rec := verifGet(s, id)
 	rt.Assert(rec.WroteHeaders <= 1, "C16/at-most-one-status")
